@@ -11,6 +11,9 @@ from __future__ import annotations
 from fractions import Fraction
 
 
+_NSF_CACHE: dict = {}
+
+
 class Lin:
     __slots__ = ("terms", "const")
 
@@ -134,6 +137,15 @@ class Lin:
         """
         if not self.terms:
             return self, False
+        ck = (tuple(sorted(self.terms.items())), self.const)
+        hit = _NSF_CACHE.get(ck)
+        if hit is not None:
+            return hit
+        res = self._normalised_sign_form()
+        _NSF_CACHE[ck] = res
+        return res
+
+    def _normalised_sign_form(self):
         first = sorted(self.terms)[0]
         flipped = self.terms[first] < 0
         f = -self if flipped else self
